@@ -50,7 +50,8 @@ PROPS = {
         contract_files=['contracts/protocol.py'],
         level='proof',
         trusted_base=COMMON_TRUSTED + ['decode_msg / encode_msg_frame string codec (assumed)'],
-        uncovered=['codec inverse (string theory), request loop of RequestHandler.handle, send_reply line integrity, dispatcher reply triples'],
+        uncovered=['codec inverse (string theory); send_reply line integrity under concurrent senders (send_lock)'],
+        bounded=[CB('protocol-contracts', 'contracts/protocol.py', 'gens_protocol', budget=240)],
     ),
     'C02': dict(
         contract_files=['contracts/datatypes.py'],
